@@ -18,6 +18,7 @@ theorem cmpFold_mono (ev ev' : PyExpr → Option Val) (hev : ∀ e v, ev e = som
       rw [hr] at h
       cases y with
       | bool b => simp at h
+      | obj _ => simp at h
       | num y =>
         simp only at h ⊢
         cases hc : pyCmp op x y with
@@ -69,6 +70,7 @@ theorem mono1 (P : Prog) : ∀ f, Mono1 P f := by
           rw [ih.expr _ _ _ _ _ hl]; rw [hl] at h
           cases x with
           | bool b => simp at h
+          | obj _ => simp at h
           | num x =>
             simp only at h ⊢
             split at h
@@ -93,10 +95,7 @@ theorem mono1 (P : Prog) : ∀ f, Mono1 P f := by
         | some vs =>
           rw [ih.args _ _ _ _ _ ha]; rw [ha] at h
           simp only at h ⊢
-          by_cases hL : L.contains tgt = true
-          · rw [if_pos hL] at h; cases h
-          rw [if_neg hL] at h ⊢
-          generalize resolveCall G tgt = tgt' at h ⊢
+          generalize pyResolve G L env tgt = tgt' at h ⊢
           cases tgt' with
           | unresolved => simp at h
           | known key => exact h
@@ -141,6 +140,13 @@ theorem mono1 (P : Prog) : ∀ f, Mono1 P f := by
         cases he : evalExpr P f G L env e with
         | none => rw [he] at h; split at h <;> simp_all
         | some v => rw [ih.expr _ _ _ _ _ he]; rw [he] at h; exact h
+      | multiAssign xs e =>
+        rw [execStmt] at h ⊢
+        cases he : evalExpr P f G L env e with
+        | none => simp [he] at h
+        | some v => rw [ih.expr _ _ _ _ _ he]; rw [he] at h; exact h
+      | unpackAssign xs e => simp [execStmt] at h
+      | importS items => simpa [execStmt] using h
       | ifs c t e =>
         rw [execStmt] at h ⊢
         cases hc : evalExpr P f G L env c with
@@ -247,5 +253,8 @@ theorem no_fall (P : Prog) : ∀ (f : Nat),
       | retNone => simp [stmtReturns] at hs
       | skip => simp [stmtReturns] at hs
       | unhandled => simp [stmtReturns] at hs
+      | multiAssign xs e => simp [stmtReturns] at hs
+      | unpackAssign xs e => simp [stmtReturns] at hs
+      | importS items => simp [stmtReturns] at hs
 
 end Mxl.C06
